@@ -9,6 +9,7 @@ import (
 	"fmt"
 	"os"
 	"os/exec"
+	"reflect"
 	"sort"
 	"strconv"
 	"strings"
@@ -589,10 +590,16 @@ func racePass(prop string, reps int) int {
 						if (a[0] == "BLPOP" || a[0] == "BRPOP") && true {
 							continue // blocking pops need the virtual clock; they are covered by the controlled pass
 						}
+						// as Manager.Handle does: the reply is serialised after the executor has returned
+						// (and released its locks), so a value handed out by reference is read here
+						var res interface{ ToBytes() []byte }
 						if conn != nil {
-							mgr.ExecCommand(ctx, h.B(a...), conn)
+							res = mgr.ExecCommand(ctx, h.B(a...), conn)
 						} else {
-							mgr.ExecCommand(ctx, h.B(a...), nil)
+							res = mgr.ExecCommand(ctx, h.B(a...), nil)
+						}
+						if res != nil && !reflect.ValueOf(res).IsNil() {
+							_ = res.ToBytes()
 						}
 					}
 				}(ti, prog)
